@@ -125,6 +125,26 @@ fn codegen_fn_scale(units: &Vec<UnitDef>) -> TokenStream {""")],
             }
         }
         impl<'a> Mul<#qty_ident> for &'a #qty_ident""")], "squared quantities panic when no natural unit exists"),
+    "CONTROL-equiv-amount-via-reference-unit": ([], [("src/lib.rs", "            self.unit().ratio(&unit) * self.amount()\n", "            self.amount() * self.unit().scale() / unit.scale()\n")],
+                                                "CONTROL for C01/C03/C13/C18 (must NOT be reported there): equiv_amount goes through the reference unit (amount * scale / scale) instead of multiplying by the pre-divided ratio. NOT a control for C02: between equal-scale units (ml / cm3) the two operand orders then convert different operands and 0 cm3 vs 5e-324 ml becomes order dependent, which C02 rightly reports"),
+    "CONTROL-add-commuted": ([], [("src/lib.rs", "        Self::new(self.amount() + rhs.equiv_amount(self.unit()), self.unit())\n", "        Self::new(rhs.equiv_amount(self.unit()) + self.amount(), self.unit())\n")],
+                             "CONTROL (must NOT be reported): a + b computed as conv(b) + a"),
+    "CONTROL-table-uses-fused-multiply-add": ([], [("src/converter.rs", "                .then(|| Q::new(qty.amount() * factor + offset, to_unit))", "                .then(|| {\n                    #[cfg(not(feature = \"fpdec\"))]\n                    let amnt = qty.amount().mul_add(*factor, *offset);\n                    #[cfg(feature = \"fpdec\")]\n                    let amnt = qty.amount() * factor + offset;\n                    Q::new(amnt, to_unit)\n                })")],
+                                              "CONTROL (must NOT be reported): table conversion uses a fused multiply-add under f64"),
+    "CONTROL-derived-mul-via-reference-magnitudes": ([], [(H, """                        <Self::Output as HasRefUnit>::_fit(
+                            self.amount() * rhs.amount() * scale
+                        )
+                }
+            }
+        }
+        impl<'a> Mul<#rhs_qty_ident> for &'a #lhs_qty_ident""", """                        <Self::Output as HasRefUnit>::_fit(
+                            (self.amount() * self.unit().scale()) * (rhs.amount() * rhs.unit().scale())
+                        )
+                }
+            }
+        }
+        impl<'a> Mul<#rhs_qty_ident> for &'a #lhs_qty_ident""")],
+                                                     "CONTROL (must NOT be reported): A * B on the fit path multiplies the two reference-unit magnitudes instead of amount product times scale product"),
     "CONTROL-fit-fallback-rewritten": ([], [("src/lib.rs", "            None => Self::new(amount / first.scale(), first),", "            None => Self::new(amount / last.map(|u| u.scale()).unwrap_or(first.scale()), first),")],
                                                "CONTROL (equivalent rewrite of the _fit fall-back, must NOT be reported by C04/C05/C18)"),
 }
@@ -172,6 +192,10 @@ def main():
     index.update(HAND)
     index["CONTROL-scalar-mul-commuted"]["control_for"] = ["C08"]
     index["CONTROL-fit-fallback-rewritten"]["control_for"] = ["C04", "C05", "C18"]
+    index["CONTROL-equiv-amount-via-reference-unit"]["control_for"] = ["C01", "C03", "C13", "C18"]
+    index["CONTROL-add-commuted"]["control_for"] = ["C03"]
+    index["CONTROL-table-uses-fused-multiply-add"]["control_for"] = ["C14"]
+    index["CONTROL-derived-mul-via-reference-magnitudes"]["control_for"] = ["C04", "C05", "C18"]
     index["CONTROL-sort-comparator-greater-on-ties"]["control_for"] = ["C09", "C11"]
     path = os.path.join(OUT, "index.json")
     old = {}
